@@ -224,40 +224,38 @@ class RawMeshData:
                         self.cell_corners.append(v,iC)
 
     def _generate_cell_faces(self):
-        nce = len(self.cell_faces._elem)
-        nca = len(self.cell_faces._adj)
-        if nca==0 or nce==0:
-            # cell faces were not generated completely : rebuild both the face and the owner cell of every record
-            self.cell_faces._elem = []
-            self.cell_faces._adj = []
+        # cell faces are derived from the cells and the faces : always rebuild both the face and the owner cell of every
+        # record, so that they follow cells or faces appended to an already built mesh
+        self.cell_faces._elem = []
+        self.cell_faces._adj = []
 
-            face_id = dict() # first invert face indirection
-            for iF,F in enumerate(self.faces):
-                key = utils.keyify(F)
-                face_id[key] = iF
+        face_id = dict() # first invert face indirection
+        for iF,F in enumerate(self.faces):
+            key = utils.keyify(F)
+            face_id[key] = iF
 
-            for iC,C in enumerate(self.cells):
-                if len(C)==4:
-                    # cell is tetrahedron
-                    v0,v1,v2,v3 = C
-                    # convention: face fi does not contain vertex vi
-                    faces_C = [(v1,v3,v2), (v0,v2,v3), (v3,v1,v0), (v0,v1,v2)]
-                elif len(C)==8:
-                    # cell is hexahedron : TODO
-                    v1,v2,v3,v4,v5,v6,v7,v8 = C
-                    faces_C = [
-                        (v1,v2,v3,v4),
-                        (v5,v6,v7,v8),
-                        (v1,v4,v8,v5),
-                        (v1,v2,v6,v5),
-                        (v2,v3,v7,v6),
-                        (v3,v4,v8,v7)
-                    ]
-                for face in faces_C:
-                    iF = face_id.get(utils.keyify(face), None)
-                    if iF is None: continue # face absent from the mesh (config.complete_faces_from_cells is off) : no incidence to record
-                    self.cell_faces._elem.append(iF)
-                    self.cell_faces._adj.append(iC)
+        for iC,C in enumerate(self.cells):
+            if len(C)==4:
+                # cell is tetrahedron
+                v0,v1,v2,v3 = C
+                # convention: face fi does not contain vertex vi
+                faces_C = [(v1,v3,v2), (v0,v2,v3), (v3,v1,v0), (v0,v1,v2)]
+            elif len(C)==8:
+                # cell is hexahedron : TODO
+                v1,v2,v3,v4,v5,v6,v7,v8 = C
+                faces_C = [
+                    (v1,v2,v3,v4),
+                    (v5,v6,v7,v8),
+                    (v1,v4,v8,v5),
+                    (v1,v2,v6,v5),
+                    (v2,v3,v7,v6),
+                    (v3,v4,v8,v7)
+                ]
+            for face in faces_C:
+                iF = face_id.get(utils.keyify(face), None)
+                if iF is None: continue # face absent from the mesh (config.complete_faces_from_cells is off) : no incidence to record
+                self.cell_faces._elem.append(iF)
+                self.cell_faces._adj.append(iC)
 
     def _complete_edges_from_faces(self):
         if self.faces.empty() : return # nothing to do
